@@ -91,7 +91,8 @@ class StrandOracle(FOracle):
                                nid, stuck[0].edge, stuck[0].t_issue, edge_room(f, stuck[0].edge), now))
                     continue
             # ---------------- input side
-            if kind in ("Machine", "Sink"):
+            if kind in ("Machine", "Sink", "Combiner"):
+                # (a splitter is the one node that reserves before it has a worker: it may hold a grant while it is blocked)
                 unused = [t for t in gets if t.state == "granted"]
                 if unused:
                     self.v(nid, (kind, "in", policy_class(ns.get("in_sel", "FIRST_AVAILABLE")), "stranded_in"),
